@@ -201,6 +201,51 @@ func textRoundTrip(t *mon.T, d dec.D) {
 	if err := sc.Scan(v); err != nil || !dec.SameRepr(br.FromApd(&sc), d) {
 		t.Fail("roundtrip-mismatch", map[string]interface{}{"encoding": "Scan(Value)", "d": d.FullString(), "got": br.FromApd(&sc).FullString(), "err": fmt.Sprint(err)})
 	}
+	// a parser's result must not depend on what its destination held before:
+	// the same texts parsed into destinations that previously held a special
+	// value, a payload, a heap-backed or an inline coefficient
+	if len(mt) <= 20000 {
+		var freshSpecial *dec.D
+		if fb, _, ferr := apd.NewFromString(encs[0].s); ferr == nil && fb != nil {
+			f := br.FromApd(fb)
+			freshSpecial = &f
+		}
+		for k := 0; k < 3; k++ {
+			pre, preName := destPreState(r)
+			dst := br.ToApd(pre)
+			var perr error
+			var how string
+			switch k {
+			case 0:
+				how = "UnmarshalText"
+				perr = dst.UnmarshalText(mt)
+			case 1:
+				e := encs[r.Intn(6)]
+				how = "SetString(" + e.name + ")"
+				_, _, perr = dst.SetString(e.s)
+			default:
+				how = "Scan"
+				if r.Bool() {
+					perr = dst.Scan(v)
+				} else {
+					perr = dst.Scan([]byte(encs[0].s))
+				}
+			}
+			t.Eval()
+			t.Count("dirty-destination/" + preName)
+			g := br.FromApd(dst)
+			// all four fields, for special values too: what a parser leaves in the
+			// coefficient and exponent of a NaN or an infinity is what it leaves
+			// there when the destination is fresh
+			sameRaw := g.Form == d.Form && g.Neg == d.Neg
+			if sameRaw && d.Form != dec.Finite && freshSpecial != nil {
+				sameRaw = g.E == freshSpecial.E && g.C.Cmp(freshSpecial.C) == 0
+			}
+			if perr != nil || !sameRaw || !dec.SameRepr(g, d) || dst.String() != encs[0].s {
+				t.Fail("roundtrip-mismatch", map[string]interface{}{"encoding": how + " into a used destination", "d": d.FullString(), "destination_held": pre.FullString(), "got": g.FullString(), "got_coefficient": clip(g.C.String()), "got_exponent": g.E, "got_string": clip(dst.String()), "err": fmt.Sprint(perr)})
+			}
+		}
+	}
 	// 'f' keeps the numeric value and the sign
 	if d.Form != dec.Finite || abs64(d.E) <= 5000 {
 		for _, fs := range []string{a.Text('f'), fmt.Sprintf("%f", a), fmt.Sprintf("%F", a)} {
@@ -406,7 +451,8 @@ func runC13(r *mon.Run) {
 	r.Rule = "cases: Decimals of all forms and signs, coefficient lengths 1..60 and ~200/~2000 digits (and a stratum of 100002..200001 digits whose exponent keeps the value within the limits; and coefficients Q*B+R with B a decimal limb 10^9..10^57 and Q at a machine-word boundary), exponents over the whole +/-100000 range with " +
 		"dense sampling at the switch-over points (adjusted exponent -5..-8, exponent -2..3, zeros with exponent -1997..-2003); each is encoded " +
 		"by String, Text G/g/E/e, MarshalText, Value and the %v %s %G %E %e %g verbs and parsed back (field-identical), by Text('f')/%f/%F " +
-		"(numerically equal, same sign), and through Decompose/Compose with buffers of every capacity class into clean and dirty destinations; " +
+		"(numerically equal, same sign); the same texts are also parsed by UnmarshalText, SetString and Scan into destinations that previously held " +
+		"NaN/sNaN/Inf/-0E-7/a payload/a heap-backed or inline coefficient, and all four fields must equal those of the parse into a fresh Decimal; and through Decompose/Compose with buffers of every capacity class into clean and dirty destinations; " +
 		"float64: random bit patterns, subnormals, powers of two, decimal neighbours, +/-0, +/-Inf, NaN through SetFloat64/Float64, with an " +
 		"independent big.Rat nearest-float oracle for exactness and shortest-ness. distinct_nontrivial = distinct values with exponent != 0 or non-finite form, and distinct finite floats."
 	r.Assumptions = []string{"NaNs are generated in their canonical shape; infinities also in the shape an overflow leaves behind (their coefficient and exponent carry no meaning and are not compared)",
